@@ -336,6 +336,9 @@ class Evaluator:
                 sep = self.template(fn.value, env)
                 septxt = ''.join(p[1] for p in sep if p[0] == 'lit') if all(p[0] == 'lit' for p in sep) else None
                 a = e.args[0]
+                if isinstance(a, ast.Call) and isinstance(a.func, ast.Name) and a.func.id == '_each' and len(a.args) == 2:
+                    # element of a comprehension in a closed expression of the symbolic walk
+                    return [('var', norm(a.args[1]), self.template(a.args[0], env), septxt)]
                 if isinstance(a, (ast.GeneratorExp, ast.ListComp)):
                     env2 = dict(env)
                     el = self.template(a.elt, env2)
@@ -443,6 +446,13 @@ class Evaluator:
                 a = p[2]
                 if isinstance(a, ast.Call) and isinstance(a.func, ast.Attribute) and a.func.attr == 'join':
                     out += self.template(a, env)
+                    continue
+                if isinstance(a, ast.Constant) and isinstance(a.value, str):
+                    out.append(('lit', a.value))
+                    continue
+                if isinstance(a, ast.Name) and isinstance(env.get(a.id), list) and env[a.id] and \
+                   all(q[0] == 'lit' for q in env[a.id]):
+                    out += env[a.id]
                     continue
             out.append(p)
         return merge_lits(out)
